@@ -212,28 +212,105 @@ ENUMS = {}
 
 
 def load_enums():
-    """member name -> the const values the published schemas enumerate for it (oneOf / anyOf of const)"""
+    """member name -> the const values the published schemas enumerate for it (oneOf / anyOf of const, directly,
+    in the items, or behind a $ref to a definition of this or another schema file)"""
     ENUMS.clear()
+    files = {}
     for p in glob.glob(os.path.join(REPO, "data", "schemas", "**", "*.json"), recursive=True):
+        try:
+            j = json.load(open(p))
+        except Exception:
+            continue
+        files[j.get("$id", p)] = j
+
+    def resolve(root, ref):
+        if not isinstance(ref, str):
+            return None, None
+        base, _, frag = ref.partition("#")
+        doc = files.get(base) if base else root
+        if doc is None:
+            return None, None
+        node = doc
+        if frag:
+            for part in frag.strip("/").split("/"):
+                if isinstance(node, dict) and part in node:
+                    node = node[part]
+                else:
+                    return None, None
+        return doc, node
+
+    def consts(root, holder, depth=0):
+        out = []
+        if not isinstance(holder, dict) or depth > 5:
+            return out
+        for k in ("oneOf", "anyOf"):
+            if isinstance(holder.get(k), list):
+                out += [y["const"] for y in holder[k] if isinstance(y, dict) and isinstance(y.get("const"), str)]
+        if "$ref" in holder:
+            doc, node = resolve(root, holder["$ref"])
+            if node is not None and node is not holder:
+                out += consts(doc, node, depth + 1)
+        return out
+
+    for root in files.values():
         def walk(x):
             if isinstance(x, dict):
                 props = x.get("properties")
                 if isinstance(props, dict):
                     for name, sub in props.items():
                         for holder in (sub, sub.get("items") if isinstance(sub, dict) else None):
-                            if isinstance(holder, dict):
-                                for k in ("oneOf", "anyOf"):
-                                    if isinstance(holder.get(k), list):
-                                        cs = [y["const"] for y in holder[k] if isinstance(y, dict) and isinstance(y.get("const"), str)]
-                                        if cs:
-                                            ENUMS.setdefault(name, set()).update(cs)
+                            cs = consts(root, holder)
+                            if cs:
+                                ENUMS.setdefault(name, set()).update(cs)
                 for v in x.values():
                     walk(v)
             elif isinstance(x, list):
                 [walk(y) for y in x]
-        walk(json.load(open(p)))
+        walk(root)
     for k in list(ENUMS):
         ENUMS[k] = sorted(ENUMS[k])
+
+
+def systematic(rng, bases, quick):
+    """ONE change per document, enumerated rather than sampled: for every distinct member position (array indices
+    generalised) of the examples, every rejected-class value and the length boundaries of its text class, and every
+    value the published schemas enumerate for a member of that name.  Returns [(label, document)]."""
+    items = []
+    seen = {}
+    per_key = 1 if quick else 4
+    for name, b in bases:
+        for path, parent, key, val in leaves(b):
+            if not isinstance(val, str) or not path or path[0] == "$schema" or path[-1] == "$schema":
+                continue
+            gp = tuple("*" if isinstance(x, int) else x for x in path)
+            nm = key if isinstance(key, str) else (path[-2] if len(path) > 1 and isinstance(path[-2], str) else "")
+            cands = []
+            for cls in classes_of(nm, val):
+                good, bad = POOL[cls]
+                cands += [(cls + "-", v) for v in (bad if not (quick and cls == "code") else ["", "A-", "Z" * 33, "A&B", "A  B"])]
+            # length boundaries of codes, keys and free text, whatever the class of the present value
+            for v in (("A" * 33, "A" * 64, "A" * 65, "a" * 65, "A" * 256) if quick else
+                      ("A" * 32, "A" * 33, "A" * 64, "A" * 65, "a" * 64, "a" * 65, "A" * 255, "A" * 256, "a" * 256)):
+                cands.append(("len%d" % len(v), v))
+            ev = ENUMS.get(nm, [])
+            if quick and len(ev) > 100:
+                ev = rng.sample(ev, 6)
+            for v in ev:
+                cands.append(("enum", v))
+            for tag, v in cands:
+                # quick: every enumerated value once per member NAME (large enumerations sampled per position);
+                # thorough: once per member position
+                k = ((nm if quick and len(ENUMS.get(nm, [])) <= 100 else gp) if tag == "enum" else gp, tag, v)
+                if v == val or seen.get(k, 0) >= per_key:
+                    continue
+                seen[k] = seen.get(k, 0) + 1
+                m = copy.deepcopy(b)
+                pp = m
+                for x in path[:-1]:
+                    pp = pp[x]
+                pp[path[-1]] = v
+                items.append(("systematic:%s:%s" % (name, json.dumps([(tag, path, v)], default=str)[:300]), m))
+    return items
 
 
 def leaves(j, path=()):
@@ -353,6 +430,19 @@ def at_value(inst, at):
     return x
 
 
+# the recorded call sites of C11-field-not-validated (findings/C11.json witness.locations): a Code / Key typed member
+# that no Validate method reaches.  An unvalidated member ANYWHERE ELSE is a new violation.
+UNVALIDATED_LOCS = [re.compile(x) for x in (
+    r"bill/[a-z]+:(lines|discounts|charges)/\*/taxes/\*/cat",
+    r"bill/[a-z]+:totals/taxes/categories/\*/code",
+    r"bill/[a-z]+:lines/\*/item/ext/[^/]+",
+    r"bill/order:tax/ext/[^/]+",
+    r"bill/delivery:tracking/code",
+    r"bill/payment:lines/\*/document/tax/categories/\*/(code|rates/\*/key|rates/\*/ext/[^/]+)",
+    r"bill/payment:tax/categories/\*/(code|rates/\*/key|rates/\*/ext/[^/]+)",
+)]
+
+
 def classify(e, inst, sid):
     """maps ONE schema error on a Go-accepted document to the recorded finding it is an instance of,
     or None (= a new failing input)."""
@@ -381,11 +471,14 @@ def classify(e, inst, sid):
     if kw == "type" and val is None and at and at[-1].isdigit():
         return F_NULLELEM
     # C11-nil-slice-null: a nil slice in a member without omitempty is serialised as null
-    if kw == "type" and val is None and e.get("kw_value") == "array" and at and not at[-1].isdigit():
+    if kw == "type" and val is None and e.get("kw_value") == "array" and at and not at[-1].isdigit() \
+            and re.fullmatch(r"bill/payment:(lines/\*/document/)?tax/categories/\*/rates",
+                             "%s:%s" % (sid[len(GOBL):] if sid.startswith(GOBL) else sid, "/".join("*" if x.isdigit() else x for x in at))):
         return F_NILSLICE
     # C11-field-not-validated: a Code / Key typed field that the library does not validate - the
     # value type's OWN Validate() rejects the value, the parent never calls it
-    if kw in ("pattern", "minLength", "maxLength") and isinstance(val, str):
+    loc = "%s:%s" % (sid[len(GOBL):] if sid.startswith(GOBL) else sid, "/".join("*" if x.isdigit() else x for x in at))
+    if kw in ("pattern", "minLength", "maxLength") and isinstance(val, str) and any(r.fullmatch(loc) for r in UNVALIDATED_LOCS):
         rules = go_rules()
         for kind in ("code", "key"):
             # (an empty value passes the type's own rule - presence is the parent's `Required` - so an
@@ -751,6 +844,18 @@ def run(c):
                 stats["enum-subkey"] = stats.get("enum-subkey", 0) + 1
     for i in range(0, len(muts), 10000):
         judge(c, "mutations", muts[i:i + 10000], state)
+    # systematic single changes: Go first; only what the library ACCEPTS needs the schema's verdict
+    sysi = systematic(c.rng, [(n, b) for n, b in bases if not (quick and n.endswith("#doc"))], quick)
+    acc_items = []
+    for i in range(0, len(sysi), 20000):
+        chunk = sysi[i:i + 20000]
+        for (label, d), (acc, out, kind) in zip(chunk, go_run([d for _, d in chunk])):
+            c.count("systematic/go-" + ("accepted" if acc else "rejected"), 1, label)
+            if acc:
+                acc_items.append((label, d))
+    c.cov["systematic"] = {"single_changes": len(sysi), "accepted_by_go": len(acc_items), "enumerated_members": {k: len(v) for k, v in ENUMS.items()}}
+    for i in range(0, len(acc_items), 10000):
+        judge(c, "systematic", acc_items[i:i + 10000], state)
     c.sample({"stream": "mutations", "change": muts[0][0], "document_schema": muts[0][1].get("$schema")}, limit=4)
     c.cov["mutation_kinds"] = stats
 
@@ -764,7 +869,7 @@ def run(c):
     c.cov["failing_inputs_not_explained_by_a_recorded_finding"] = state["reported"]
     c.cov["rule"] = ("schema files: all files under data/schemas (exhaustive); documents: every example output under */out (envelope and bare document), invoices generated "
                      "from the seed (calcgen), and 1-3 field-level mutations of the examples (dates, amounts, percentages, keys, values the schema enumerates for the member, codes, uuids, currency and country codes, "
-                     "text, numbers, map entries, dropped members, duplicated elements, retyped values; 70% of replaced values valid). Every document goes through Go; "
+                     "text, numbers, map entries, dropped members, duplicated elements, retyped values; 70% of replaced values valid), and SYSTEMATIC single changes: for every distinct member position of the examples every rejected-class value, the length boundaries 32/33/64/65/255/256 and every value the schemas enumerate for a member of that name (also behind $ref) - Go first, the accepted ones judged. Every document goes through Go; "
                      "Go-accepted: serialised envelope and document validated against their published schemas by the extracted validator and python jsonschema (P); "
                      "Go-rejected: the given document validated by both (validators compared on invalid documents). distinct = distinct (schema, instance) pairs; "
                      "patterns: each shipped pattern on generated strings, extracted matcher = python re = Go regexp")
